@@ -60,6 +60,7 @@ class Ctx:
         self.rule_instances = {}
         self.undecided_clauses = []
         self.assumptions = []
+        self.floor_errors = []
         self._shared = {}
 
     # -- recording ------------------------------------------------------
@@ -87,8 +88,8 @@ class Ctx:
         """Fail closed when a rule saw fewer instances than confirmed by hand."""
         have = self.rule_instances.get(rule, 0)
         if have < n:
-            raise AnalysisError("rule %s matched %d instance(s), fewer than the %d confirmed by hand%s"
-                                % (rule, have, n, (" (" + what + ")") if what else ""))
+            self.floor_errors.append("rule %s matched %d instance(s), fewer than the %d confirmed by hand%s"
+                                     % (rule, have, n, (" (" + what + ")") if what else ""))
 
     def note(self, s):
         self.notes.append(s)
@@ -154,6 +155,8 @@ def finish(ctx, level, explanation, t0, trusted_base=(), extra=None, selftest=No
     for o in undec:
         print("ANALYSIS-ERROR undecided: %s:%d: [%s] %s -- %s%s" % (o.file, o.line, o.rule, o.construct, o.goal,
                                                                     (" -- " + o.detail) if o.detail else ""))
+    for fe in ctx.floor_errors:
+        print("ANALYSIS-ERROR floor: " + fe)
     if selftest and selftest.get("errors"):
         for e in selftest["errors"]:
             print("ANALYSIS-ERROR self-test: " + e)
@@ -206,6 +209,6 @@ def finish(ctx, level, explanation, t0, trusted_base=(), extra=None, selftest=No
         json.dump(ev, f, indent=1, default=str)
     if violations:
         return 1
-    if undec or (selftest and selftest.get("errors")):
+    if undec or ctx.floor_errors or (selftest and selftest.get("errors")):
         return 2
     return 0
